@@ -169,8 +169,9 @@ def req_record(req: dict, flavour: dict) -> dict:
     return {"cop": cop, "verb": [asc(v) for v in req.get("verb", [])], "lic": list(req["lic"]), "con": [asc(c) for c in req["con"]],
             "merge": bool(flavour.get("merge")), "skipExisting": bool(flavour.get("skip_existing")),
             "skipUnrecognised": bool(flavour.get("skip_unrecognised")),
-            "rendersCon": flavour.get("template") not in ("nocon", "droplic", "dropcop", "dropall", "pydrop", "pydroplic", "pydropcop", "literal"),
-            "noReplace": bool(flavour.get("no_replace"))}
+            "rendersCon": flavour.get("template") not in ("nocon", "droplic", "dropcop", "dropall", "pydrop", "pydroplic", "pydropcop", "literal", "pytwoblocks"),
+            "noReplace": bool(flavour.get("no_replace")),
+            "twoBlocks": flavour.get("template") == "pytwoblocks"}     # an already-commented template with an EMPTY line between its blocks
 
 
 def flavour_options(fl: dict) -> list:
@@ -218,6 +219,9 @@ def run_history(case: dict) -> list:
         (tdir / "literal.jinja2").write_text(
             "Copyright ACME Corp. All rights reserved.\n{% for copyright_line in copyright_lines %}\n{{ copyright_line }}\n{% endfor %}\n\n"
             "{% for expression in spdx_expressions %}\nSPDX-License-Identifier: {{ expression }}\n{% endfor %}\nSPDX-License-Identifier: Zlib\n")
+        (tdir / "pytwoblocks.commented.jinja2").write_text(
+            "{% for copyright_line in copyright_lines %}\n# {{ copyright_line }}\n{% endfor %}\n\n"
+            "{% for expression in spdx_expressions %}\n# SPDX-License-Identifier: {{ expression }}\n{% endfor %}\n")
         (tdir / "pydroplic.commented.jinja2").write_text(
             "{% for copyright_line in copyright_lines %}\n# {{ copyright_line }}\n{% endfor %}\n#\n# Licence: see LICENSE\n")
         styles = {s["name"]: s for s in annmodel.style_table()}
